@@ -502,9 +502,12 @@ class Array:
                 if fd.closed:
                     fd = open(file=self._datapath, mode=self._accessmode)
                 fd.flush()
-                self._update_len(lenincrease=lenincrease)
-                fd.truncate(self._size * self._dtype.itemsize)
+                # release the data file first, rewriting the description
+                # needs a file descriptor and there may be none left
+                newsize = self._size + lenincrease * product(self._shape[1:])
+                fd.truncate(newsize * self._dtype.itemsize)
                 fd.close()
+                self._update_len(lenincrease=lenincrease)
                 if not isinstance(exception, Exception):
                     raise  # interrupt or exit, array is consistent now
                 s = f"{exception}\nAppending of data did not (completely) " \
